@@ -16,8 +16,9 @@ ALL_PROPS = ["C01.a", "C01.b", "C02.a", "C02.b", "C03.a", "C03.b", "C03.c", "C03
 
 
 def line_of(o):
-    return dict(tid=o["tid"], i=o["i"], e=o["e"], out=o["out"], err=o["err"], tr=o["tr"],
-                db=o["db"], udb=o["udb"], now=o["now"], hid=o["hid"])
+    d = dict(tid=o["tid"], i=o["i"], e=o["e"], out=o["out"], err=o["err"], tr=o["tr"],
+             db=o["db"], udb=o["udb"], now=o["now"], hid=o["hid"], pre=o.get("pre") or {})
+    return d
 
 
 def tla_set(xs):
@@ -36,7 +37,7 @@ def write_module(path, name, consts):
         f.write("CHECK_DEADLOCK FALSE\n")
 
 
-def batch_consts(cfg_key, conns, long_names, props):
+def batch_consts(cfg_key, conns, long_names, props, stringified=()):
     allow, usage, blur, welcome, exp, period = cfg_key
     return {
         "Apps": '{"a1", "a2", "a3"}', "AppOrder": '<<"a1", "a2", "a3">>',
@@ -44,10 +45,11 @@ def batch_consts(cfg_key, conns, long_names, props):
         "Class1": "{ToString(i) : i \\in 1..9}", "Class2": "{ToString(i) : i \\in 10..99}",
         "Class3": "{ToString(i) : i \\in 100..999}", "LongNames": tla_set(long_names),
         "OtherNames": "{}", "ClientMbox": '{"m1", "m2"}',
-        "GenMbox": '[k \\in 1..400 |-> "g" \\o ToString(k)]',
+        "GenMbox": '[k \\in 1..5000 |-> "g" \\o ToString(k)]',
         "EXP": str(exp), "PERIOD": str(period),
         "AllowList": "TRUE" if allow else "FALSE", "UsageOn": "TRUE" if usage else "FALSE",
         "Blur": str(blur), "Welcome": json.dumps(welcome), "PropIds": tla_set(props),
+        "Stringified": tla_set(stringified),
     }
 
 
@@ -69,7 +71,9 @@ def check_batch(lines, cfg_key, conns, props, workdir, tag, keep=False):
     with open(tf, "w") as f:
         for ln in lines:
             f.write(json.dumps(ln, separators=(",", ":")) + "\n")
-    write_module(workdir, "TC_" + tag, batch_consts(cfg_key, conns, long_names_of(lines), props))
+    strs = {f[k] for ln in lines for f in ln["out"] if f["type"] == "message"
+            for k in ("phase", "body", "id") if isinstance(f[k], str) and f[k].startswith("$")}
+    write_module(workdir, "TC_" + tag, batch_consts(cfg_key, conns, long_names_of(lines), props, strs))
     env = dict(os.environ, MBH_TRACE=tf, MBH_OUT=of)
     t0 = time.time()
     cmd = JAVA[:1] + ["-XX:+UseSerialGC", "-Xmx3g"] + JAVA[1:] + ["tlc2.TLC", "-workers", "1", "-metadir", os.path.join(workdir, "meta_" + tag),
